@@ -109,14 +109,35 @@ def do_check(mod, pid, modname, seed, args):
     import glob
     for old in glob.glob(os.path.join(ROOT, "replays", f"{pid}-*.json")):
         os.remove(old)
+    import tempfile
+    marker = os.path.join(tempfile.gettempdir(), f"verif-abort-{os.getpid()}")
+    if os.path.exists(marker):
+        os.remove(marker)
+    os.environ["VERIF_ABORT_MARKER"] = marker   # inherited by the pool workers (forked below)
     pool = runner.Pool(args.src, modname, tier, seed, args.workers)
+    aborted = False
     try:
         batch = max(1, int(getattr(mod, "BATCH", 1)))
         solo_pass = False
         while True:
             agg = Aggregate(mod, pid)
+            wall_hangs = 0
             for res in pool.map_indices(range(n), solo=solo_pass):
                 agg.add(res)
+                if res.get("wall_hits"):
+                    wall_hangs += 1
+                    if wall_hangs >= 3 and not aborted:
+                        # code that never returns to the event loop costs real time; a few such runs are enough
+                        aborted = True
+                        open(marker, "w").close()
+            if os.path.exists(marker):
+                aborted = True   # a worker has seen three such runs in its own chunk
+            if aborted:
+                print(f"note: {wall_hangs} runs did not return to the event loop within the real-time budget (busy "
+                      f"loop); the remaining runs were skipped, {agg.n} of {n} were executed")
+                n = agg.n
+                sample = []
+                break
             if agg.harness_errors:
                 for e in agg.harness_errors[:3]:
                     print(e)
@@ -159,11 +180,11 @@ def do_check(mod, pid, modname, seed, args):
         exit_code = 0
         replays = []
         reported = set()
-        budget_keys = new_keys[:16]
+        budget_keys = new_keys[:16] if not aborted else new_keys[:3]
         for key in budget_keys:
             index, case, viol = min(agg.by_key[key], key=lambda t: t[0])
             small, sviol, digest = case, viol, agg.digests.get(index)
-            if not args.no_shrink:
+            if not args.no_shrink and not aborted:
                 try:
                     small, sviol, digest = shrink.minimise(pool, mod, case, key, viol, digest)
                 except Exception:
@@ -196,12 +217,16 @@ def do_check(mod, pid, modname, seed, args):
             print(f"VIOLATION property={pid} replay={path}")
             replays.append(path)
             exit_code = 1
-        new_keys = sorted(reported) + new_keys[16:]
+        new_keys = sorted(reported) + new_keys[len(budget_keys):]
         if len(new_keys) > len(reported):
             exit_code = 1
         if len(new_keys) > len(reported):
             print(f"  (+{len(new_keys) - len(reported)} further distinct violation keys not minimised)")
         wall = time.time() - t0
+        if aborted and exit_code == 0:
+            print(f"HARNESS-ERROR property={pid}: runs did not return to the event loop (real-time hang) and no violation "
+                  f"of this property was observed in the {agg.n} runs executed; the property was not evaluated")
+            return 2
         if not args.no_evidence:
             write_evidence(mod, pid, tier, seed, n, agg, wall, known_seen, new_keys, pool.workers)
         print(f"{pid} {tier}: {n} runs, {len(agg.sigs)} distinct non-trivial traces, "
@@ -210,6 +235,8 @@ def do_check(mod, pid, modname, seed, args):
         return exit_code
     finally:
         pool.close()
+        if os.path.exists(marker):
+            os.remove(marker)
 
 
 class Aggregate:
